@@ -34,7 +34,10 @@ OBSERVING = ("poll", "get-offset", "topic", "stats", "cnext")
 
 def run_node_property(prop, tier, seed, replay, t0, *, module, gen, n_quick, n_thorough, spec_prefixes,
                       corr_kinds, assumptions, engine="sys", extra_tb=None, maxops_thorough=90,
-                      extra_coverage=None, pre_messages=None, pre_rc=0, pre_known_hits=None):
+                      extra_coverage=None, pre_messages=None, pre_rc=0, pre_known_hits=None, http=True):
+    if http:
+        import gen_http
+        gen = gen_http.wrap(gen)
     # 1-2. proofs
     out = vlib.lean_build([module, "judge"])
     names, examples, axioms, bad = vlib.audit(module)
@@ -221,6 +224,7 @@ def storage(prop, module, spec_prefixes, corr_kinds, assumptions, n_quick=160, n
 PROPS = {}
 
 ASSUME_NODE = [
+    "two transports: every third generated history reroutes about half of the root connection's requests, and all requests of some other connections, through the HTTP API (real axum server, real SDK HttpClient, JSON bodies); over HTTP an error is compared as an error (status codes carry no name), consumer groups and get_me do not exist there",
     "correspondence is differential testing: a divergence outside the generated histories is not seen",
     "one OS process per server incarnation; restart = graceful System::shutdown + runtime shutdown + new process on the same directory",
     "virtual clock (hook H1) drives every timestamp; wall-clock time plays no role",
@@ -444,6 +448,16 @@ def run_c09(prop, tier, seed, replay, t0):
                 if x != y:
                     diffs.append((v, i - 1, x, y))
                     break
+    # table maintenance on the real code: init(A); update(B) must answer like init(B); init(A); delete like empty
+    stride = 5 if tier == "quick" else 1
+    chunks = [(i * N // 8, (i + 1) * N // 8) for i in range(8)]
+
+    def upd(c):
+        return subprocess.run([vlib.HBIN, "perm-update", str(c[0]), str(c[1]), str(stride)], stdout=subprocess.PIPE,
+                              stderr=subprocess.DEVNULL, text=True).stdout.splitlines()
+    upd_lines = [l for part in vlib.parallel(upd, chunks, workers=8) for l in part]
+    upd_bad = [l for l in upd_lines if l.startswith("MISMATCH")]
+    upd_pairs = sum(int(re.search(r"pairs=(\d+)", l).group(1)) for l in upd_lines if l.startswith("DONE"))
     sound = subprocess.run([vlib.JUDGE, "permsound", "0", str(N)], stdout=subprocess.PIPE, text=True).stdout \
         if translation_error is None else ""
     unsound = [l for l in sound.splitlines() if l.startswith("UNSOUND")]
@@ -457,6 +471,19 @@ def run_c09(prop, tier, seed, replay, t0):
     if panics:
         v, i, rs = panics[0]
         path = vlib.write_replay(prop, "panic.txt", f"rules {rs} PANIC on the real Permissioner\n" + describe(i, v) + "\n")
+        msgs.append(f"VIOLATION property={prop} replay={path}")
+        rc = 1
+    if upd_bad:
+        m = re.search(r"a=(\d+)(?: b=(\d+))?", upd_bad[0])
+        a_idx = int(m.group(1))
+        txt = ("permission change does not apply to the next request (real Permissioner, table maintenance):\n" + upd_bad[0] + "\n" +
+               "record A: " + describe(a_idx, "same") + "\n")
+        if m.group(2):
+            txt += "record B: " + describe(int(m.group(2)), "same") + "\nhistory: init_permissions_for_user(7, A); update_permissions_for_user(7, B); the listed rules answer differently from a fresh init_permissions_for_user(7, B) (got!=want, 0 = ok, 1 = unauthorized)\n"
+        else:
+            txt += "history: init_permissions_for_user(7, A); delete_permissions_for_user(7); the listed rules still answer as if the record existed\n"
+        txt += f"replay: harness/target/debug/verif-harness perm-update {a_idx} {a_idx + 1} 1\n"
+        path = vlib.write_replay(prop, "update-not-applied.txt", txt)
         msgs.append(f"VIOLATION property={prop} replay={path}")
         rc = 1
     if unsound:
@@ -487,6 +514,7 @@ def run_c09(prop, tier, seed, replay, t0):
         "samples": [{"rules": rules}, {"record_0_outcomes": tables[0][1][1] if len(tables[0][1]) > 1 else ""},
                     {"record_root_like": tables[0][1][N] if len(tables[0][1]) > N else ""}],
         "panics": len(panics), "unsound": len(unsound),
+        "table_maintenance_pairs": upd_pairs, "table_maintenance_mismatches": len(upd_bad),
     }
     import gen_auth
     coverage["rule"] = "TABLES: " + coverage["rule"]
@@ -516,10 +544,21 @@ CAT_KINDS = {"create-stream", "update-stream", "delete-stream", "purge-stream", 
              "delete-topic", "purge-topic", "create-parts", "delete-parts", "create-group", "delete-group",
              "join", "leave", "group", "groups", "me", "close", "figures", "topics", "restart", "send",
              "poll-status", "poll-offsets", "poll-content", "poll-cur"}
-PROPS["C05"] = catalog("C05", "Iggy.Props.C05", ["obs-changed-restart", "poll-"], CAT_KINDS,
-                       ASSUME_NODE + ["transport: binary (TCP) only in this round; the HTTP handlers journal through the same EntryCommand path (the same fix applies to both) but are not driven by the harness yet"])
-PROPS["C06"] = catalog("C06", "Iggy.Props.C06", ["obs-changed", "poll-"], CAT_KINDS,
-                       ASSUME_NODE + ["transport: binary (TCP) only in this round"])
+def _gen_c05(rng, focus, k=None, maxops=40):
+    # the catalogue includes users, permissions and tokens: every third history is an auth history with restarts
+    import gen_auth
+    if k is not None and k % 3 == 2:
+        return gen_auth.gen(rng, "C05", k, maxops)
+    return gen_catalog.gen(rng, focus, k, maxops)
+
+
+PROPS["C05"] = {"run": lambda p, tier, seed, replay, t0: run_node_property(
+    p, tier, seed, replay, t0, module="Iggy.Props.C05", gen=_gen_c05, n_quick=150, n_thorough=2500,
+    spec_prefixes=["obs-changed-restart", "poll-"],
+    corr_kinds=CAT_KINDS | {"users", "user", "create-user", "delete-user", "update-user", "update-perms", "change-pw",
+                            "create-pat", "delete-pat", "pats", "login", "login-pat"},
+    assumptions=ASSUME_NODE)}
+PROPS["C06"] = catalog("C06", "Iggy.Props.C06", ["obs-changed", "poll-"], CAT_KINDS, ASSUME_NODE)
 
 import gen_crypto
 PROPS["C19"] = {"run": lambda p, tier, seed, replay, t0: run_node_property(
@@ -834,11 +873,22 @@ def run_c13(prop, tier, seed, replay, t0):
         for m in msgs:
             print(m)
         return 1
+    import gen_http, gen_catalog, gen_auth
+
+    def mixed(rng, focus, k=None, maxops=40):
+        # half: malformed frames on raw connections; half: ordinary histories (catalogue, storage, users) with the
+        # HTTP API carrying about half of the requests - every request and response then crosses JSON/HTTP
+        # (real server handlers and mappers, real SDK HttpClient) and is compared with the same model
+        if k is None or k % 2 == 0:
+            return gen_malformed.gen(rng, focus, k, maxops)
+        g = [gen_catalog.gen, gen_storage.gen, gen_auth.gen][(k // 2) % 3]
+        cfg, ops = g(rng, {0: "C06", 1: "C02", 2: "C10"}[(k // 2) % 3], k, maxops)
+        return gen_http.httpify(rng, cfg, ops, share=0.7)
     return run_node_property(
-        prop, tier, seed, None, t0, module=module, gen=gen_malformed.gen, n_quick=48, n_thorough=1500,
-        spec_prefixes=["malformed-frame-effect", "obs-changed", "poll-"], corr_kinds=None,
+        prop, tier, seed, None, t0, module=module, gen=mixed, n_quick=64, n_thorough=2000, http=False,
+        spec_prefixes=["malformed-frame-effect", "obs-changed", "poll-", "get-offset", "store-offset", "figures-"], corr_kinds=None,
         assumptions=ASSUME_NODE + [
-            "PARTIAL: HTTP/JSON transport is not driven (serde derives on the same structs); QUIC shares the binary codec",
+            "HTTP/JSON: not modelled byte by byte; half of the node histories send about 70% of their requests through the real HTTP API (server handlers + SDK HttpClient) and every answer is compared with the same model; QUIC (same binary codec) is not driven",
             "responses: the model covers the response frame; the per-entity response mappers (server binary/mapper.rs vs sdk binary/mapper.rs) are exercised end-to-end by every node history of every property (real server mapper -> real SDK decoder -> compared with the model's expected data), not modelled byte by byte",
             "malformed frames: what a frame does is judged from outside (answer kind, every other connection, catalogue, logs, restart)"],
         extra_coverage=coverage, pre_messages=msgs, pre_rc=rc, pre_known_hits=known_hits)
@@ -848,7 +898,7 @@ PROPS["C13"] = {"run": run_c13}
 
 import gen_sdk
 PROPS["C20"] = {"run": lambda p, tier, seed, replay, t0: run_node_property(
-    p, tier, seed, replay, t0, module="Iggy.Props.C20", gen=gen_sdk.gen_any,
+    p, tier, seed, replay, t0, module="Iggy.Props.C20", gen=gen_sdk.gen_any, http=False,
     n_quick=64, n_thorough=1500,
     spec_prefixes=["producer-", "consumer-", "group-", "commit-", "sdk-", "hl-", "poll-"],
     corr_kinds={"psend", "cnext", "cstore", "poll-offsets", "poll-content", "poll-cur", "poll-status", "send", "group"},
@@ -866,7 +916,7 @@ PROPS["C20"] = {"run": lambda p, tier, seed, replay, t0: run_node_property(
 
 import gen_conc
 PROPS["C12"] = {"run": lambda p, tier, seed, replay, t0: run_node_property(
-    p, tier, seed, replay, t0, module="Iggy.Props.C12", gen=gen_conc.gen,
+    p, tier, seed, replay, t0, module="Iggy.Props.C12", gen=gen_conc.gen, http=False,
     n_quick=48, n_thorough=1200, spec_prefixes=["stress-", "poll-", "obs-changed"],
     corr_kinds=ALL_POLL_KINDS | {"figures"},
     assumptions=ASSUME_NODE + [
